@@ -12,7 +12,7 @@ CFG = {
             "trusted": ["memcpy between an object and memory assembles the object's value per host byte order (C object representation); out-of-bounds accesses are outside the property"]},
     "C16": {"modules": ["W2c2Verif.Props.C16", "W2c2Verif.Props.C16Conc", "W2c2Verif.Props.C16Emit"], "names": gl.ATOMIC_LOADS + gl.ATOMIC_STORES + gl.rmw_names(), "aligned": True,
             "trusted": ["each __atomic_* builtin is ONE indivisible, sequentially consistent memory step on a naturally aligned cell (gcc/clang + hardware; assumed, exercised by a TSan stress run in the thorough tier)"]},
-    "C19": {"modules": ["W2c2Verif.Props.C19", "W2c2Verif.Props.C19Buf", "W2c2Verif.Props.C19Wasi"], "names": gl.PLAIN[0] + gl.PLAIN[1] + gl.ATOMIC_LOADS + gl.ATOMIC_STORES + gl.rmw_names(), "aligned": True,
+    "C19": {"modules": ["W2c2Verif.Props.C19", "W2c2Verif.Props.C19Rmw", "W2c2Verif.Props.C19Buf", "W2c2Verif.Props.C19Wasi"], "names": gl.PLAIN[0] + gl.PLAIN[1] + gl.ATOMIC_LOADS + gl.ATOMIC_STORES + gl.rmw_names(), "aligned": True,
             "trusted": ["no big-endian host or emulator exists in the image: the theorems are about the regenerated BE bodies with End.be; the real BE bodies are executed only in the forced-BE-on-this-LE-host configuration (model instantiated with body=be, host=le)"]},
 }
 
